@@ -208,11 +208,10 @@ theorem counters_never_exceed (s : Script) (hraw : c.saltSize + (s.chunks.map (c
         · simp [hrep] at hc; omega
         · simp [hrep] at hc; omega
 
-/-- **wiring**: closed once after handling on every path (generated fact about `streamHandler.Handle`, which is not
-    translated).  "Opened once before handling" and "authentication reported once and only after the authentication
-    branch" used to be two more syntactic facts; they are now proved about the translated `ssService.HandleStream` and
-    `handleConnection` (`code_opened_once_then_handled`, `code_authentication_and_probe_reports` below). -/
-theorem wiring : Gen.Wiring.tcpClosedOnceAfterHandleConnection = true := by decide
+/- (The three syntactic wiring facts this file used to carry — opened once before handling, closed once after handling
+   on every path, authentication reported once and only after the authentication branch — are all proved about the
+   translated code now: `code_opened_once_then_handled`, `code_closed_once_with_the_real_outcome`,
+   `code_authentication_and_probe_reports` below.) -/
 
 
 /-! ### the counting wrapper (metrics.MeasureConn), tied by the `mconn` campaign -/
@@ -429,5 +428,42 @@ theorem code_opened_once_then_handled
   · simp [callsNamed, List.filter_append]
   · simp
   · simp
+
+/-- **code_closed_once_with_the_real_outcome**: the translated `streamHandler.Handle` (service/tcp.go) — with the
+    translated `handleConnection` running inside it — for every handler, context, clock, connection and behaviour of the
+    collaborators: it never panics; it replaces nil metrics by the no-op object and wraps the connection in the counting
+    connection before anything else; whatever `handleConnection` did comes next, unchanged; then EXACTLY ONE `AddClosed`,
+    whose status is "OK" exactly when `handleConnection` returned no error and that error's status otherwise; and only
+    after that report the connection is closed, once.  (This used to be the syntactic fact "AddClosed is a top-level
+    statement after handleConnection".) -/
+theorem code_closed_once_with_the_real_outcome
+    (ctxDeadline : GoRT.Opaque "context.Context" → Int × Bool) (measure : Tie.Handle.Conn → Tie.Handle.Conn) (since : Int → Int)
+    (dial : GoRT.Opaque "transport.FuncStreamDialer")
+    (authenticate : Tie.Handle.Conn → String × Tie.Handle.Conn × Option String)
+    (req : Tie.Handle.Conn → String × Option String)
+    (disc : GoRT.Opaque "io.Writer") (noop : GoRT.Opaque "service.TCPConnMetrics") (now : Int)
+    (relay : GoRT.Opaque "slog.Logger" → GoRT.Opaque "context.Context" → GoRT.Opaque "transport.FuncStreamDialer" → String → Tie.Handle.Conn → Tie.Handle.Conn → Option String)
+    (h : Gen.Code.streamHandler) (ctx : GoRT.Opaque "context.Context") (conn : Tie.Handle.Conn)
+    (cm : GoRT.Opaque "service.TCPConnMetrics") :
+    ∃ st hlog,
+      Gen.Code.streamHandler.handleConnection ctxDeadline dial authenticate req disc now relay h ctx (measure conn)
+        (if cm = ⟨0⟩ then noop else cm) Gen.Code.ProxyMetrics.zero = some (h, Gen.Code.ProxyMetrics.zero, st, hlog) ∧
+      Gen.Code.streamHandler.Handle ctxDeadline measure since dial authenticate req disc noop now relay h ctx conn cm =
+        some (h, [Tie.Handle.measureEff conn] ++ hlog ++
+          [Tie.Handle.closedEff (if cm = ⟨0⟩ then noop else cm) (Tie.Handle.statusOf st) (since now), Tie.Handle.closeEff (measure conn)]) ∧
+      (Tie.Handle.statusOf st = "OK" ↔ st = none ∨ st = some "OK") ∧
+      callsNamed "TCPConnMetrics.AddClosed" hlog = 0 ∧ callsNamed "Conn.Close" hlog = 0 ∧
+      callsNamed "TCPConnMetrics.AddAuthenticated" hlog ≤ 1 := by
+  rw [Tie.Handle.handleConnection_tie, Tie.Handle.handle_tie]
+  refine ⟨_, _, rfl, rfl, ?_, ?_⟩
+  · generalize (Tie.Handle.outcome _ _ _ _ _ _ _ _ _ _).1 = st
+    cases st <;> simp [Tie.Handle.statusOf]
+  · unfold Tie.Handle.outcome callsNamed Tie.Handle.armEffs
+    cases ha : (authenticate (measure conn)).2.2 with
+    | some e => cases (ctxDeadline ctx).2 <;> simp [Tie.Handle.absorbEff, Tie.Handle.callAuth]
+    | none =>
+      cases hr : (req (authenticate (measure conn)).2.1).2 with
+      | some e => cases (ctxDeadline ctx).2 <;> simp [Tie.Handle.authEff, Tie.Handle.clearEff, Tie.Handle.drainEff, Tie.Handle.callAuth, Tie.Handle.callReq]
+      | none => cases (ctxDeadline ctx).2 <;> simp [Tie.Handle.authEff, Tie.Handle.clearEff, Tie.Handle.callAuth, Tie.Handle.callReq, Tie.Handle.callRelay]
 
 end OutlineModel.Props.C15
